@@ -15,7 +15,6 @@ import (
 	"sync"
 	"time"
 
-	"github.com/iden3/go-iden3-core/v2/w3c"
 	"github.com/iden3/go-schema-processor/v2/merklize"
 	"github.com/iden3/go-schema-processor/v2/verifiable"
 
@@ -156,10 +155,62 @@ type Arte struct {
 	Cred   map[string]any `json:"cred,omitempty"`
 	DIDDoc map[string]any `json:"diddoc,omitempty"`
 	Status map[string]any `json:"status,omitempty"`
+	// raw HTTP answers of the resolvers (override DIDDoc / Status when set)
+	DIDRaw    *rawAnswer `json:"did_raw,omitempty"`
+	StatusRaw *rawAnswer `json:"status_raw,omitempty"`
+}
+
+// rawAnswer: what the stub transport answers
+type rawAnswer struct {
+	Code      int    `json:"code"`
+	Body      []byte `json:"body"`
+	Transport bool   `json:"transport_error,omitempty"` // RoundTrip returns an error
 }
 
 func (b *Bundle) Arte() *Arte {
 	return &Arte{Kind: string(b.Kind), Cred: cloneMap(b.Cred), DIDDoc: cloneMap(b.DIDDoc), Status: cloneMap(b.Status)}
+}
+
+func (a *Arte) copy() *Arte {
+	return &Arte{Kind: a.Kind, Cred: cloneMap(a.Cred), DIDDoc: cloneMap(a.DIDDoc), Status: cloneMap(a.Status), DIDRaw: a.DIDRaw, StatusRaw: a.StatusRaw}
+}
+
+// didAnswer / statusAnswer: the HTTP answers the resolvers will see
+func (a *Arte) didAnswer() *rawAnswer {
+	if a.DIDRaw != nil {
+		return a.DIDRaw
+	}
+	if a.DIDDoc == nil {
+		return &rawAnswer{Transport: true}
+	}
+	b, _ := json.Marshal(a.DIDDoc)
+	return &rawAnswer{Code: 200, Body: b}
+}
+func (a *Arte) statusAnswer() *rawAnswer {
+	if a.StatusRaw != nil {
+		return a.StatusRaw
+	}
+	if a.Status == nil {
+		return &rawAnswer{Code: 404}
+	}
+	b, _ := json.Marshal(a.Status)
+	return &rawAnswer{Code: 200, Body: b}
+}
+
+// oneAnswer is an http.RoundTripper that answers every request the same way.
+type oneAnswer struct{ r *rawAnswer }
+
+func (o oneAnswer) RoundTrip(req *http.Request) (*http.Response, error) {
+	if o.r == nil || o.r.Transport {
+		return nil, fmt.Errorf("stub transport: connection refused")
+	}
+	return &http.Response{StatusCode: o.r.Code, Status: fmt.Sprintf("%d", o.r.Code), Body: io.NopCloser(bytes.NewReader(o.r.Body)), Header: http.Header{}, Request: req}, nil
+}
+
+const resolverURL = "http://resolver.c12.invalid/1.0/identifiers"
+
+func httpDIDResolver(r *rawAnswer) verifiable.HTTPDIDResolver {
+	return verifiable.VerifNewHTTPDIDResolver(resolverURL, &http.Client{Transport: oneAnswer{r}})
 }
 
 // part selects one of the three documents: "cred", "diddoc", "status".
@@ -183,34 +234,18 @@ func (a *Arte) doc(name string) map[string]any {
 
 func (a *Arte) remove(m member) { jremove(a.doc(m.Doc), m.Path) }
 
-// ---- stub resolvers ----
-type didStub struct{ body []byte }
-
-// Resolve decodes the body exactly as verifiable.HTTPDIDResolver does.
-func (d didStub) Resolve(_ context.Context, _ *w3c.DID) (verifiable.DIDDocument, error) {
-	res := &struct {
-		DIDDocument verifiable.DIDDocument `json:"didDocument"`
-	}{}
-	if d.body == nil {
-		return verifiable.DIDDocument{}, fmt.Errorf("stub resolver: no document")
-	}
-	if err := json.NewDecoder(bytes.NewReader(d.body)).Decode(&res); err != nil {
-		return verifiable.DIDDocument{}, err
-	}
-	return res.DIDDocument, nil
-}
-
+// ---- stub transports ----
 // statusTransport serves revocation status answers to verifiable.IssuerResolver
 // (which uses http.DefaultClient) without any network: the body is looked up
 // by the request path.
 type statusTransport struct {
 	mu     sync.RWMutex
-	bodies map[string][]byte
+	bodies map[string]*rawAnswer
 }
 
-var transport = &statusTransport{bodies: map[string][]byte{}}
+var transport = &statusTransport{bodies: map[string]*rawAnswer{}}
 
-func (t *statusTransport) set(key string, body []byte) {
+func (t *statusTransport) set(key string, body *rawAnswer) {
 	t.mu.Lock()
 	t.bodies[key] = body
 	t.mu.Unlock()
@@ -232,7 +267,7 @@ func (t *statusTransport) RoundTrip(req *http.Request) (*http.Response, error) {
 	if !ok {
 		return &http.Response{StatusCode: 404, Status: "404 Not Found", Body: io.NopCloser(bytes.NewReader(nil)), Header: http.Header{}, Request: req}, nil
 	}
-	return &http.Response{StatusCode: 200, Status: "200 OK", Body: io.NopCloser(bytes.NewReader(b)), Header: http.Header{}, Request: req}, nil
+	return oneAnswer{b}.RoundTrip(req)
 }
 
 var installOnce sync.Once
@@ -292,18 +327,12 @@ func RunVerify(a *Arte, loader *ctxload.Loader) (Verdict, *verifiable.W3CCredent
 	if p, ok := a.Cred["proof"]; ok {
 		routeStatus(p, key) // only the proof: the credential body is bound to the claim
 	}
-	var sbody []byte
-	if a.Status != nil {
-		sbody, _ = json.Marshal(a.Status)
-		transport.set(key+"auth", sbody)
-		transport.set(key+"cred", sbody)
-		defer transport.del(key + "auth")
-		defer transport.del(key + "cred")
-	}
-	var dbody []byte
-	if a.DIDDoc != nil {
-		dbody, _ = json.Marshal(a.DIDDoc)
-	}
+	sa := a.statusAnswer()
+	transport.set(key+"auth", sa)
+	transport.set(key+"cred", sa)
+	defer transport.del(key + "auth")
+	defer transport.del(key + "cred")
+	da := a.didAnswer()
 	cbody, _ := json.Marshal(a.Cred)
 	var vc verifiable.W3CCredential
 	var v Verdict
@@ -314,7 +343,7 @@ func RunVerify(a *Arte, loader *ctxload.Loader) (Verdict, *verifiable.W3CCredent
 	reg := &verifiable.CredentialStatusResolverRegistry{}
 	reg.Register(statusType, verifiable.IssuerResolver{})
 	v.Verify = guard(watchdog, func() error {
-		return vc.VerifyProof(context.Background(), verifiable.ProofType(a.Kind), didStub{body: dbody},
+		return vc.VerifyProof(context.Background(), verifiable.ProofType(a.Kind), httpDIDResolver(da),
 			verifiable.WithStatusResolverRegistry(reg),
 			verifiable.VerifWithMerklizeOptions(merklize.WithDocumentLoader(loader)))
 	})
@@ -327,7 +356,15 @@ func RunStatus(status map[string]any, nonce uint64) Outcome {
 	installTransport()
 	key := nextKey()
 	b, _ := json.Marshal(status)
-	transport.set(key+"s", b)
+	return runStatusRaw(&rawAnswer{Code: 200, Body: b}, nonce, key)
+}
+
+func runStatusRaw(ra *rawAnswer, nonce uint64, key string) Outcome {
+	installTransport()
+	if key == "" {
+		key = nextKey()
+	}
+	transport.set(key+"s", ra)
 	defer transport.del(key + "s")
 	reg := &verifiable.CredentialStatusResolverRegistry{}
 	reg.Register(statusType, verifiable.IssuerResolver{})
